@@ -2041,3 +2041,39 @@ def rule_initmisc(text):
 
 def rule_sig_init(text):
     return text, []
+
+
+def rule_iometamisc(text):
+    """journal-position restore and metadata writers (io.rs)"""
+    apps = []
+    ws = r"\s*"
+    table = [
+        (r"self" + ws + r"\." + ws + r"journal_generation" + ws + r"\." + ws + r"store\(" + ws + r"([^;,]+?)," + ws + r"Ordering::\w+\)", r"self.set_journal_generation(\1)", "R-atom", "store into the journal-generation atomic"),
+        (r"self" + ws + r"\." + ws + r"journal_slot" + ws + r"\." + ws + r"store\(" + ws + r"([^;,]+?)," + ws + r"Ordering::\w+\)", r"self.set_journal_slot(\1)", "R-atom", "store into the journal-slot atomic"),
+        (r"vec!\[0;" + ws + r"([^\]]+)\]", r"zeroed_vec(\1)", "R-vec", "shim: vec![0; n] is n zero bytes"),
+        (r"block\[\.\.metadata\.len\(\)\]\.copy_from_slice\(metadata\)", "copy_prefix(&mut block, metadata)", "R-cpy", "shim: the first len(src) bytes replaced by src, the rest unchanged"),
+        (r"let" + ws + r"mut" + ws + r"next" + ws + r"=" + ws + r"\*metadata;", "let mut next = *metadata;", "R-ws", "unchanged"),
+    ]
+    for pat, rep, rname, why in table:
+        n = 0
+        while n < 8:
+            n += 1
+            mm = re.search(pat, text)
+            if not mm:
+                break
+            new = mm.expand(rep)
+            if new == text[mm.start():mm.end()]:
+                break
+            apps.append(_app(rname, text, mm.start(), mm.end(), new, why))
+            text = text[:mm.start()] + new + text[mm.end():]
+    return text, apps
+
+
+def rule_sig_iometa(text):
+    apps = []
+    mm = re.search(r"\(\s*&self\b", text)
+    if mm:
+        new = mm.group(0).replace("&self", "&mut self")
+        apps.append(_app("R-sigmut", text, mm.start(), mm.end(), new, "interior mutability made explicit: the device calls are logged on `self`"))
+        text = text[:mm.start()] + new + text[mm.end():]
+    return text, apps
